@@ -18,6 +18,8 @@ def conditions(tier):
             if q and h * w == 4 and codec in ("nurikabe", "nurimisaki", "slitherlink"):
                 continue
             cs.append(C(H16, codec, "h_grid_codec", h, w, t=T if h * w <= 3 else 3 * T, key="grid-codec:" + codec))
+    for codec in ("nurikabe", "sudoku", "nurimisaki", "slitherlink", "masyu"):
+        cs.append(C(H16, codec, "h_grid_codec", 1, 2, t=T, VERIF_PRIOR="2,3", key="grid-codec-after-other-size:" + codec))
     cs.append(C(H16, "yajilin", "h_yajilin", 1, 3, t=2 * T, key="yajilin"))
     rshapes = [(1, 3), (2, 2), (3, 1)] if q else [(1, 2), (1, 3), (3, 1), (2, 2), (2, 3), (3, 2)]
     for codec in ("lits", "norinori", "heyawake"):
@@ -45,7 +47,7 @@ def run(tier, only=None):
                      "nurimisaki, yajilin (YajilinClue), heyawake, lits, norinori", "compass.to_puzz_link_url / parse_puzz_link_url",
                      "star_battle.problem_to_pzv_url", "aquarium.problem_to_url", "util.encode_array / encode_grid_segmentation / "
                      "blocks_to_block_id / _encode_int_or_str"]
-    rep.bounds = {"boards": "up to 2x2 (quick) / 2x3, 3x2 (thorough), always including non-square boards",
+    rep.bounds = {"boards": "up to 2x2 (quick) / 2x3, 3x2 (thorough), always including non-square boards; each grid codec also after a 2x3 board went through the same module-level codec object",
                   "cells": "each module's clue alphabet; one cell additionally over values needing 1, 2 and 3 hex digits (0,1,9,10,15,16,17,255,256,4095)",
                   "rooms": "symbolic room label per cell (0..2, 0..1 on 6-cell boards); heyawake clue values -1..1 and the wide set",
                   "yajilin": "1x3 board, clue kinds '..', '??', arrow+number 0..20 in all four directions"}
